@@ -105,6 +105,12 @@ CATALOGUE = [
     ("all", "keeps", None, lambda c: c.a.all(axis=0)),
     ("any skipna", "keeps", None, lambda c: c.a.any(axis=0, skipna=True)),
     ("sum tuple", "keeps", None, lambda c: c.a.sum(axis=tuple(c.a.dims[::-1][:2])) if c.a.ndim > 2 else c.a.newaxis("n_").sum(axis=tuple(c.a.dims[::-1][:2]))),
+    ("median tuple stored order", "keeps", None, lambda c: c.a.median(axis=tuple(c.a.dims[:2])) if c.a.ndim > 2 else c.a.newaxis("n_", pos=c.a.ndim).median(axis=tuple(c.a.dims[:2]))),
+    ("median tuple last two", "keeps", None, lambda c: c.a.median(axis=tuple(c.a.dims[-2:])) if c.a.ndim > 2 else c.a.newaxis("n_").median(axis=tuple(c.a.dims[-2:]))),
+    ("mean list of positions", "keeps", None, lambda c: c.a.mean(axis=[0, 1]) if c.a.ndim > 2 else c.a.newaxis("n_", pos=c.a.ndim).mean(axis=[0, 1])),
+    ("max tuple skipna", "keeps", None, lambda c: c.a.max(axis=tuple(c.a.dims[:2]), skipna=True) if c.a.ndim > 2 else c.a.newaxis("n_", pos=c.a.ndim).max(axis=tuple(c.a.dims[:2]), skipna=True)),
+    ("median all dims tuple", None, None, lambda c: c.a.median(axis=tuple(c.a.dims))),
+    ("median None", None, None, lambda c: c.a.median()),
     ("sum None", None, None, lambda c: c.a.sum()),
     ("percentile", None, None, lambda c: c.da.percentile(c.a, [10, 50], axis=c.axk())),
     ("percentile scalar", None, None, lambda c: c.da.percentile(c.a, 50, axis=c.a.dims[c.axk()])),
